@@ -15,6 +15,7 @@ Ops (byte strings hex-encoded, `-` = empty):
   chunk n i              -> hex            chunkName
   render fq fp ch uq f   -> hex            JName.render  (ch, uq: `-` = absent)
   parse s                -> nl | none | some fq fp ch uq file
+  find top fqids name    -> none | some hex  findNode (the fqid found)
   getfork names index    -> none | some i  getForkNew
   getforkold names index -> none | some i  getForkOld
 -/
@@ -88,6 +89,13 @@ def handle (op : String) (args : List String) : Option String :=
     let index ← bytesOfHex index
     match getForkNew names index with
     | some i => pure s!"some {i}"
+    | none => pure "none"
+  | "find", [top, fqids, name] => do
+    let top ← bytesOfHex top
+    let fqids ← parseHexList fqids
+    let name ← bytesOfHex name
+    match findNode top fqids name with
+    | some i => pure s!"some {hexOfBytes (fqids.getD i [])}"
     | none => pure "none"
   | "getforkold", [names, index] => do
     let names ← parseHexList names
